@@ -1,0 +1,83 @@
+//go:build verif
+
+package meta
+
+import (
+	"bytes"
+	"io"
+
+	"github.com/hashicorp/raft"
+)
+
+// VerifFSM exposes the raft state machine of the meta store to external
+// verification harnesses, without a live raft instance.
+type VerifFSM struct {
+	s *store
+}
+
+// NewVerifFSM returns a state machine over a fresh store.
+func NewVerifFSM(c *Config) *VerifFSM {
+	return &VerifFSM{s: newStore(c, "", "")}
+}
+
+// Apply applies one log entry and returns the command's error, if any.
+func (f *VerifFSM) Apply(index, term uint64, data []byte) error {
+	resp := (*storeFSM)(f.s).Apply(&raft.Log{Index: index, Term: term, Type: raft.LogCommand, Data: data})
+	if err, ok := resp.(error); ok {
+		return err
+	}
+	return nil
+}
+
+// Data returns the currently published metadata (not a copy).
+func (f *VerifFSM) Data() *Data {
+	f.s.mu.RLock()
+	defer f.s.mu.RUnlock()
+	return f.s.data
+}
+
+// VerifSnapshot is a snapshot taken from the state machine.
+type VerifSnapshot struct {
+	snap raft.FSMSnapshot
+}
+
+// Snapshot takes an FSM snapshot.
+func (f *VerifFSM) Snapshot() (*VerifSnapshot, error) {
+	snap, err := (*storeFSM)(f.s).Snapshot()
+	if err != nil {
+		return nil, err
+	}
+	return &VerifSnapshot{snap: snap}, nil
+}
+
+type verifSink struct {
+	bytes.Buffer
+	canceled bool
+}
+
+func (s *verifSink) ID() string    { return "verif" }
+func (s *verifSink) Cancel() error { s.canceled = true; return nil }
+func (s *verifSink) Close() error  { return nil }
+
+// Persist writes the snapshot out and returns its bytes.
+func (v *VerifSnapshot) Persist() ([]byte, error) {
+	sink := &verifSink{}
+	if err := v.snap.Persist(sink); err != nil {
+		return nil, err
+	}
+	v.snap.Release()
+	return sink.Bytes(), nil
+}
+
+// Restore replaces the state machine's state with a persisted snapshot.
+func (f *VerifFSM) Restore(b []byte) error {
+	return (*storeFSM)(f.s).Restore(io.NopCloser(bytes.NewReader(b)))
+}
+
+// VerifValidateCommand runs the validation the execute endpoint applies.
+func VerifValidateCommand(b []byte) error { return validateCommand(b) }
+
+// VerifForceSnapshot makes the service's raft instance take a snapshot now.
+func (s *Service) VerifForceSnapshot() error {
+	return s.store.raftState.snapshot()
+}
